@@ -414,28 +414,26 @@ theorem mech_expected : Clos.Mech.ofFacts Expected.C01.mechFacts = Clos.Mech.yae
 
 /-- **yaegi's frame mechanism implements Go's lexical scoping.** For every program of the closure fragment
     that is well scoped (every name is declared before use in an enclosing scope: what the Go compiler
-    checks) and lies in the domain `inDom` — no `range` bound is a bare variable (F51), no loop body
-    redeclares the loop variable's name at its top level (F52) —, and every amount of fuel: resolving
+    checks — no other condition since the repairs of F51 and F52) and every amount of fuel: resolving
     names to (level, slot) and running over frames of cells — clone on function literal, fresh cell on
     `:=`, `Set` through the cell on `=`, per-iteration cells for loop variables — gives the result of the
     Go semantics over environments and locations: both out of fuel, or the same printed values and the
     same kind of end (normal, run-time panic, stuck). -/
-theorem closure_frames_correct (p : Clos.Stmt) (fuel : Nat)
-    (hws : p.wellScoped [] = true) (hdom : p.inDom = true) :
+theorem closure_frames_correct (p : Clos.Stmt) (fuel : Nat) (hws : p.wellScoped [] = true) :
     Clos.runM Clos.Mech.yaegi fuel p = Clos.runS fuel p :=
-  Clos.run_agree p fuel hws hdom
+  Clos.run_agree p fuel hws
 
 /-- … as both implications -/
 theorem closure_outcomes (p : Clos.Stmt) (fuel : Nat) (o : Clos.Outcome)
-    (hws : p.wellScoped [] = true) (hdom : p.inDom = true) :
+    (hws : p.wellScoped [] = true) :
     Clos.runS fuel p = some o ↔ Clos.runM Clos.Mech.yaegi fuel p = some o := by
-  rw [closure_frames_correct p fuel hws hdom]
+  rw [closure_frames_correct p fuel hws]
 
 /-- … and about what the driver computes: the model instantiated with the extracted facts -/
 theorem closure_frames_correct_extracted (p : Clos.Stmt) (fuel : Nat)
-    (hws : p.wellScoped [] = true) (hdom : p.inDom = true) :
+    (hws : p.wellScoped [] = true) :
     Clos.runM (Clos.Mech.ofFacts Generated.C01.mechFacts) fuel p = Clos.runS fuel p := by
-  rw [mech_tie, mech_expected]; exact closure_frames_correct p fuel hws hdom
+  rw [mech_tie, mech_expected]; exact closure_frames_correct p fuel hws
 
 /-- the invariant behind it, at every statement, for every fuel: from states related by a partial bijection
     `β` between locations and cells — for every name the scope resolves, the cell at
@@ -525,11 +523,12 @@ def redeclSelf : Clos.Stmt :=
 def rangeVarBound : Clos.Stmt := sq [.set true 1 (n 3), .rng 0 (v 1) (sq [.set false 1 (n 1), .print (v 0)])]
 end ClosEx
 
-/-- non-vacuity of the hypotheses: the examples are well scoped and inside the domain -/
-example : ClosEx.loopClosures.wellScoped [] = true ∧ ClosEx.loopClosures.inDom = true ∧
-    ClosEx.rangeClosures.wellScoped [] = true ∧ ClosEx.rangeClosures.inDom = true ∧
+/-- non-vacuity of the hypothesis: the examples are well scoped -/
+example : ClosEx.loopClosures.wellScoped [] = true ∧ ClosEx.rangeClosures.wellScoped [] = true ∧
     ClosEx.redefine.wellScoped [] = true ∧ ClosEx.assignAfter.wellScoped [] = true ∧
-    ClosEx.bodyAssign.wellScoped [] = true ∧ ClosEx.nested.wellScoped [] = true ∧ ClosEx.nested.inDom = true := by
+    ClosEx.bodyAssign.wellScoped [] = true ∧ ClosEx.nested.wellScoped [] = true ∧
+    ClosEx.rangeVarBound.wellScoped [] = true ∧ ClosEx.redeclLit.wellScoped [] = true ∧
+    ClosEx.redeclSelf.wellScoped [] = true := by
   decide
 
 /-- … and a use before the declaration, or a name of another function's block, is not -/
@@ -540,32 +539,32 @@ example : (Clos.Stmt.seq (.print (ClosEx.v 0)) (.set true 0 (ClosEx.n 1))).wellS
     (consequence of `closure_frames_correct`; the right-hand side is the Go semantics) -/
 theorem per_iteration_copies :
     Clos.runM Clos.Mech.yaegi 40 ClosEx.loopClosures = some ⟨[0, 1, 2], .normal⟩ := by
-  rw [closure_frames_correct _ _ (by decide) (by decide)]; decide
+  rw [closure_frames_correct _ _ (by decide)]; decide
 
 /-- … of a range loop too -/
 theorem per_iteration_copies_range :
     Clos.runM Clos.Mech.yaegi 40 ClosEx.rangeClosures = some ⟨[0, 1, 2], .normal⟩ := by
-  rw [closure_frames_correct _ _ (by decide) (by decide)]; decide
+  rw [closure_frames_correct _ _ (by decide)]; decide
 
 /-- (b) a closure created before `x := …` is executed again keeps the previous x -/
 theorem redefine_keeps_captured :
     Clos.runM Clos.Mech.yaegi 40 ClosEx.redefine = some ⟨[10, 10], .normal⟩ := by
-  rw [closure_frames_correct _ _ (by decide) (by decide)]; decide
+  rw [closure_frames_correct _ _ (by decide)]; decide
 
 /-- (c) an assignment `x = …` after the closure was created IS seen by it -/
 theorem assignment_seen_by_closure :
     Clos.runM Clos.Mech.yaegi 40 ClosEx.assignAfter = some ⟨[5], .normal⟩ := by
-  rw [closure_frames_correct _ _ (by decide) (by decide)]; decide
+  rw [closure_frames_correct _ _ (by decide)]; decide
 
 /-- (d) assignments to the loop variable in the body are seen by the post statement and the condition -/
 theorem body_assignment_seen_by_post :
     Clos.runM Clos.Mech.yaegi 40 ClosEx.bodyAssign = some ⟨[0, 2, 4], .normal⟩ := by
-  rw [closure_frames_correct _ _ (by decide) (by decide)]; decide
+  rw [closure_frames_correct _ _ (by decide)]; decide
 
 /-- nested literals (level 2), recursion through a variable, shadowing in a block -/
 theorem nested_levels :
     Clos.runM Clos.Mech.yaegi 60 ClosEx.nested = some ⟨[120, 13], .normal⟩ := by
-  rw [closure_frames_correct _ _ (by decide) (by decide)]; decide
+  rw [closure_frames_correct _ _ (by decide)]; decide
 
 /-- the model itself computes these (not only through the theorem), and the resolved addresses are what one
     expects: in `g`'s body `x` is two frames up, `a` one, `b` its own slot 0 -/
@@ -600,22 +599,35 @@ theorem clone_by_reference_witness :
     Clos.runM { Clos.Mech.yaegi with cloneFrame := false } 40 ClosEx.redefine = some ⟨[10, 11], .normal⟩ ∧
     Clos.runM { Clos.Mech.yaegi with cloneFrame := false } 40 ClosEx.loopClosures = some ⟨[2, 2, 2], .normal⟩ := by decide
 
-/-- **witness (F51)** — what `inDom` excludes: the bound of `for i := range m` is the variable's own cell,
-    so `m = 1` in the body ends the loop after one iteration; Go evaluates the bound once -/
-theorem range_bound_alias_witness :
-    ClosEx.rangeVarBound.wellScoped [] = true ∧ ClosEx.rangeVarBound.inDom = false ∧
-    Clos.runS 40 ClosEx.rangeVarBound = some ⟨[0, 1, 2], .normal⟩ ∧
-    Clos.runM Clos.Mech.yaegi 40 ClosEx.rangeVarBound = some ⟨[0], .normal⟩ ∧
-    Clos.runM { Clos.Mech.yaegi with boundAlias := false } 40 ClosEx.rangeVarBound = some ⟨[0, 1, 2], .normal⟩ := by decide
+/-- the mechanism before the repairs 231dea3 (F51) and 1c8103f (F52) -/
+def mechBeforeF51 : Clos.Mech := { Clos.Mech.yaegi with boundAlias := true }
+def mechBeforeF52 : Clos.Mech := { Clos.Mech.yaegi with redeclNop := true }
 
-/-- **witness (F52)** — what the second clause of `inDom` excludes: cfg.go turns a define of the loop variable's
-    name at the top level of the loop body into a `nop` (meant for the pre-1.22 idiom `i := i`), so `i := 5` is
-    lost, and after `i := i` the body works on the loop variable itself -/
+/-- **witness (F51, repaired by 231dea3)** — with the OLD rangeInt the hidden slot of `for i := range m` held the
+    variable's own cell, so `m = 1` in the body ended the loop after one iteration; Go evaluates the bound once -/
+theorem range_bound_alias_witness :
+    Clos.runS 40 ClosEx.rangeVarBound = some ⟨[0, 1, 2], .normal⟩ ∧
+    Clos.runM mechBeforeF51 40 ClosEx.rangeVarBound = some ⟨[0], .normal⟩ := by decide
+
+/-- … regression example: the repaired mechanism, through the theorem and by running the model -/
+theorem range_bound_copied : Clos.runM Clos.Mech.yaegi 40 ClosEx.rangeVarBound = some ⟨[0, 1, 2], .normal⟩ := by
+  rw [closure_frames_correct _ _ (by decide)]; decide
+example : Clos.runM Clos.Mech.yaegi 40 ClosEx.rangeVarBound = some ⟨[0, 1, 2], .normal⟩ := by decide
+
+/-- **witness (F52, repaired by 1c8103f)** — the OLD cfg.go turned a define of the loop variable's name at the top
+    level of the loop body into a `nop` (meant for the pre-1.22 idiom `i := i`), so `i := 5` was lost, and after
+    `i := i` the body worked on the loop variable itself -/
 theorem loopvar_redeclared_witness :
-    ClosEx.redeclLit.wellScoped [] = true ∧ ClosEx.redeclLit.inDom = false ∧
     Clos.runS 40 ClosEx.redeclLit = some ⟨[5, 5], .normal⟩ ∧
-    Clos.runM Clos.Mech.yaegi 40 ClosEx.redeclLit = some ⟨[0, 1], .normal⟩ ∧
+    Clos.runM mechBeforeF52 40 ClosEx.redeclLit = some ⟨[0, 1], .normal⟩ ∧
     Clos.runS 40 ClosEx.redeclSelf = some ⟨[5, 6], .normal⟩ ∧
-    Clos.runM Clos.Mech.yaegi 40 ClosEx.redeclSelf = some ⟨[5], .normal⟩ := by decide
+    Clos.runM mechBeforeF52 40 ClosEx.redeclSelf = some ⟨[5], .normal⟩ := by decide
+
+/-- … regression examples: a new variable that shadows the per-iteration copy for the rest of the body -/
+theorem loopvar_redeclared_shadows :
+    Clos.runM Clos.Mech.yaegi 40 ClosEx.redeclLit = some ⟨[5, 5], .normal⟩ ∧
+    Clos.runM Clos.Mech.yaegi 40 ClosEx.redeclSelf = some ⟨[5, 6], .normal⟩ := by
+  rw [closure_frames_correct _ _ (by decide), closure_frames_correct _ _ (by decide)]; decide
+example : Clos.runM Clos.Mech.yaegi 40 ClosEx.redeclLit = some ⟨[5, 5], .normal⟩ := by decide
 
 end YaegiVerif.Props.C01
